@@ -96,4 +96,20 @@ theorem rq_gram_posSemidef (k : RQ ℝ) (hk : k.Valid) (x : Pts ℝ) (hx : PtsWF
   ext i j
   exact he i j i.2 j.2
 
+/-! Non-vacuity: every hypothesis of the PSD theorems instantiated on non-trivial inputs (valid parameters, three
+points as a `Vector`, four points as a `2 × 2` `Matrix`). -/
+example : ∃ R, (⟨2, 1 / 2⟩ : RBF ℝ).fwdM (.vec [0, 1, 3]) (.vec [0, 1, 3]) = some R ∧
+    (Matrix.of fun i j : Fin 3 => R.get i j).PosSemidef := by
+  have h := rbf_gram_posSemidef (⟨2, 1 / 2⟩ : RBF ℝ) (by constructor <;> norm_num) (.vec [0, 1, 3]) trivial
+    (by simp [Pts.points])
+  exact h
+example : ∃ R, (⟨2, 3, 1 / 2⟩ : RQ ℝ).fwdM (.mat ⟨[0, 1, 3, 4], 2, 2⟩) (.mat ⟨[0, 1, 3, 4], 2, 2⟩) = some R ∧
+    (Matrix.of fun i j : Fin 4 => R.get i j).PosSemidef := by
+  have h := rq_gram_posSemidef (⟨2, 3, 1 / 2⟩ : RQ ℝ) (by refine ⟨?_, ?_, ?_⟩ <;> norm_num) (.mat ⟨[0, 1, 3, 4], 2, 2⟩)
+    (by simp [PtsWF, Mat.WF]) (by simp [Pts.points])
+  exact h
+example : 0 ≤ ∑ i : Fin 3, ∑ j : Fin 3, (![1, -2, 1] i : ℝ) * ![1, -2, 1] j *
+    (⟨2, 1 / 2⟩ : RBF ℝ).fwd (![0, 1, 3] i) (![0, 1, 3] j) :=
+  rbf_kernel_psd (⟨2, 1 / 2⟩ : RBF ℝ) (by constructor <;> norm_num) univ ![1, -2, 1] ![0, 1, 3]
+
 end Cv.C20
